@@ -553,7 +553,9 @@ PROCS = {
 }
 
 PROC_SITUATIONS = {
-    'le_create': ['present', 'absent_cancel', 'present_cancel', 'present_cancel_race'],
+    # ..._direct: the host is wired to its controller synchronously (no HCI transport delay), so the cancel takes effect
+    # at the very moment it is issued, between two link messages
+    'le_create': ['present', 'absent_cancel', 'present_cancel', 'present_cancel_race', 'present_cancel_race_direct'],
     'le_ext_create': ['present', 'absent_cancel'],
     'classic_create': ['present', 'absent', 'present_role_switch_refused'],
     'disconnect_le': ['live', 'dead_handle', 'live_from_peripheral'],
@@ -622,7 +624,7 @@ def run_proc_case(proc, situation, fault, at):
 
     spec = PROCS[proc]
     kind = spec['world']
-    w = World(2, classic=kind.startswith('classic'))
+    w = World(2, classic=kind.startswith('classic'), direct=situation.endswith('_direct'))
     w.__enter__()
     try:
         w.power_on()
@@ -675,7 +677,12 @@ def run_proc_case(proc, situation, fault, at):
             elif fault == 'local_disconnect' and 'handle' in ctxd:
                 w.loop.create_task(host.send_command(hci.HCI_Disconnect_Command(connection_handle=ctxd['handle'], reason=0x13)))
             elif fault == 'cancel':
-                w.loop.create_task(host.send_command(hci.HCI_LE_Create_Connection_Cancel_Command()))
+                if situation.endswith('_direct'):
+                    # handed to the controller at once (a host wired synchronously whose caller runs right now): the
+                    # controller processes the cancel exactly here, between two link messages
+                    w.controllers[me].on_packet(bytes(hci.HCI_LE_Create_Connection_Cancel_Command()))
+                else:
+                    w.loop.create_task(host.send_command(hci.HCI_LE_Create_Connection_Cancel_Command()))
             elif fault == 'peer_vanish':
                 try:
                     w.link.remove_controller(w.controllers[other])
@@ -693,7 +700,7 @@ def run_proc_case(proc, situation, fault, at):
 
         w.loop.on_step = on_step
         task = w.loop.create_task(host.send_command(cmd))
-        if situation == 'present_cancel_race':
+        if situation.startswith('present_cancel_race'):
             # the cancel is issued while the connection is being established (advertising PDUs in flight)
             w.loop.advance(1.0, max_steps=50000)
         w.loop.run_quiescent(max_steps=50000)
@@ -759,7 +766,7 @@ def w_proc(arg):
     if base['verdict'] and only_fault is None:
         v = base['verdict']
         st.violation(v[0], {'proc': proc, 'situation': situation, 'fault': None}, f'{proc}/{situation}: {v[1]} {base["excs"]}', {'proc': proc, 'situation': situation, 'fault': None, 'at': 0})
-    if situation == 'present_cancel_race':
+    if situation.startswith('present_cancel_race'):
         if only_fault is None:
             for at in range(0, base['messages'] + 1):
                 r = run_proc_case(proc, situation, 'cancel', at)
